@@ -237,7 +237,7 @@ struct sproc {
 };
 static struct sproc P[NPROC];
 static int nproc;
-static pid_t next_pid = 30000;
+static pid_t next_pid = 5000000;	/* above any real pid (pid_max <= 4194304): really forked children keep their own pids */
 static pid_t free_pids[NPROC];
 static int nfree_pids;
 static struct simk_child_script next_script;
